@@ -1165,6 +1165,11 @@ func main() {
 		nbig = r.N(36, 360)
 	}
 	vh.Parallel(nbig, 16, func(i int) { bigReferrers(r, i) })
+	if focus == "C06" {
+		nt := r.N(24, 360)
+		vh.Parallel(nt, 12, func(i int) { tickSequence(r, i) })
+		r.Require("tick_sequence_trials", int64(nt*3/4))
+	}
 	vh.Parallel(n+ns+nslow+nnest, 16, func(i int) {
 		switch {
 		case i < n:
